@@ -148,6 +148,48 @@ theorem C13_context_done_before (req : Req) (pol : Option Policy) (outcome : Nat
   | none => simp
   | some p => simp [Req.record_eq]
 
+/-- **cancellation between an attempt and its retry decision** (the context ends in `SelectedHost.Mark`, after the
+    attempt of request `x`): no request numbered above `x` reaches a server — whatever the policy answers —, the
+    execution makes at most ONE further attempt, which ends with the context's error, and every attempt is still
+    counted; for every statement kind, policy, outcome sequence, host list and changing environment -/
+theorem C13_cancel_before_decision (req : Req) (pol : Option Policy) (outcome : Nat → Res) (us : Nat → Nat → Bool)
+    (fuel : Nat) (ids : List Nat) (k cnt cons x : Nat) :
+    let r := executeX req pol outcome us fuel ids k cnt cons false (some x)
+    r.sent.length ≤ x + 1 - k ∧ r.out.attempts.length ≤ r.sent.length + 1 ∧
+    (∀ i a, r.out.attempts[i]? = some a → x + 1 - k ≤ i → a.res = .logical) ∧
+    r.out.cnt = cnt + r.out.attempts.length := by
+  intro r
+  have hg := doQuery_good req pol (fun n => if n > x then .logical else outcome n) us fuel ids k cnt cons
+  have hdead : ∀ i a, r.out.attempts[i]? = some a → x + 1 - k ≤ i → a.res = .logical := by
+    intro i a ha hi
+    have := (hg.2.2.1 i a ha).2.1
+    rw [this]
+    have : k + i > x := by omega
+    simp [this]
+  refine ⟨by simp [r, executeX, List.length_take]; omega, ?_, hdead, hg.2.1⟩
+  by_cases hlen : r.out.attempts.length ≤ x + 1 - k
+  · have : r.sent = r.out.attempts := by
+      show List.take (x + 1 - k) r.out.attempts = r.out.attempts
+      exact List.take_of_length_le hlen
+    rw [this]; omega
+  · have hlt : x + 1 - k < r.out.attempts.length := by omega
+    have hs : r.sent.length = x + 1 - k := by
+      simp only [r, executeX, Bool.false_eq_true, if_false, List.length_take]
+      exact Nat.min_eq_left (by
+        have : x + 1 - k < (doQuery req pol (fun n => if n > x then Res.logical else outcome n) us fuel ids k cnt cons).attempts.length := hlt
+        omega)
+    have ha : r.out.attempts[x + 1 - k]? = some (r.out.attempts[x + 1 - k]) := List.getElem?_eq_getElem hlt
+    have hl := hdead _ _ ha (Nat.le_refl _)
+    have := doLoop_stop_last req pol (fun n => if n > x then .logical else outcome n) us fuel ids k cnt cons none _ _ ha (Or.inl hl)
+    have e2 : r.out.attempts.length = (doLoop req pol (fun n => if n > x then Res.logical else outcome n) us fuel ids k cnt cons none).attempts.length := rfl
+    omega
+
+/-- non-vacuity: the first attempt fails (read timeout: the downgrading policy answers Retry), the context ends
+    before the decision: one more attempt is counted and observed, the server sees one request, the caller gets
+    the context's error -/
+example : executeX ⟨.query, true⟩ (some (downgradingPolicyL [2, 1])) (fun _ => .err kReadTO) (fun _ _ => true) 10 [1, 2] 0 0 4 false (some 0) =
+    ⟨⟨[⟨1, 0, 4, .err 7⟩, ⟨1, 1, 2, .logical⟩], .last .logical, 2, 2⟩, [⟨1, 0, 4, .err 7⟩], true⟩ := by decide
+
 /-- what reaches servers in one execution (context done or not) stays within the budget -/
 theorem C13_budget_execute (req : Req) (p : Policy) (N : Nat) (hp : ∀ m, p.attempt m = decide (m ≤ N))
     (outcome : Nat → Res) (us : Nat → Nat → Bool) (fuel : Nat) (ids : List Nat) (k cnt cons : Nat) (done : Bool) :
